@@ -216,6 +216,40 @@ class Gen:
                 if not named:
                     for k, f in enumerate(fs):
                         f["ident"] = "_%d" % k
+        # a flattened type must not bring a key the host (or another flattened type) already has: serde would write it twice
+        by = {d["ident"]: d for d in self.defs}
+
+        def keys_of(t, depth=0):
+            out = set()
+            if t[0] in ("wrap",):
+                return keys_of(t[-1], depth)
+            if t[0] != "named" or t[1] not in by or depth > 4:
+                return out
+            d = by[t[1]]
+            if d.get("tag"):
+                out.add(d["tag"])
+            tg = d.get("tagging")
+            if tg and tg[0] in ("internal", "adjacent"):
+                out.update(tg[1:])
+            for g in (d["fields"] if d["kind"] == "struct" else [g for v in d["variants"] for g in v["fields"]]):
+                if g["flatten"]:
+                    out |= keys_of(g["ty"], depth + 1)
+                else:
+                    out.update(x for x in (g["ident"].replace("r#", ""), g["rename"]) if x is not None)
+            if d["kind"] == "enum":
+                out.update(x for v in d["variants"] for x in (v["ident"].replace("r#", ""), v.get("rename")) if x is not None)
+            return out
+        taken = set()
+        for f in fs:
+            if not f["flatten"]:
+                taken.update(x for x in (f["ident"].replace("r#", ""), f["rename"]) if x is not None)
+        for f in fs:
+            if f["flatten"]:
+                ks = keys_of(f["ty"])
+                if {k.lower().replace("_", "").replace("-", "") for k in ks} & {k.lower().replace("_", "").replace("-", "") for k in taken}:
+                    f["flatten"] = False
+                else:
+                    taken |= ks
         return fs
 
     # ---- definitions ---------------------------------------------------------------------
